@@ -852,6 +852,13 @@ class Engine:
             if v.variant is None:
                 return Int(0, 'isize')
             return Int(self.types.variant_index(v.ty, v.variant), 'isize')
+        if isinstance(v, Opaque) and self.flags.get('opaque_kinds') and v.ty in self.types.enums:
+            # code that looks at the KIND of a node the harness left opaque: one path per kind (remembered for this node on this path)
+            key = 'kind:' + v.name
+            if key not in self.choices:
+                k = self.decide(len(self.types.enums[v.ty]), None, 'kind of the opaque node ' + v.name)
+                self.choices[key] = k
+            return Int(self.choices[key], 'isize')
         raise Unsupported('discriminant of %r' % (v,))
 
     def cast(self, frame, v, ty, kind):
